@@ -27,8 +27,11 @@ def ss_post(c, v0, v1, r):
         return d
     d['rows_are_input_rows'] = c.Forall(0, n, lambda i: c.Exists(0, n, lambda j: row_eq(i, j)))
     pf, qf = c.last_perm            # witness: input row j lands at position n-1-q(j)
-    d['every_row_kept'] = c.hint(c.Forall(0, n, lambda j: c.Exists(0, n, lambda i: row_eq(i, j))),
-                                 c.Forall(0, n, lambda j: c.And(0 <= n - 1 - qf(j), n - 1 - qf(j) < n, row_eq(n - 1 - qf(j), j))))
+    def kept(j):
+        w = n - 1 - qf(j)
+        at_w = c.And(0 <= w, w < n, row_eq(w, j))
+        return c.hint(c.Exists(0, n, lambda i: row_eq(i, j)), at_w, final_uses=1)     # the witness position, then only that fact
+    d['every_row_kept'] = c.ForallH(0, n, kept)
     return d
 
 
